@@ -276,7 +276,7 @@ def c18(tier):
                 a = args
                 for cs, cfg in cfgs:
                     subs.append(Subj("v%04d_p%02d_%s_%s" % (si, pi, r, cs), d, cfg, args=a, sweep_full=False,
-                                     bounds=dict(x1_depth=2, x2_extra=2, x2_cap=6, range_x1_depth=1, range_x2_extra=1)))
+                                     bounds=dict(x1_depth=2, x2_extra=2, x2_cap=6, range_x1_depth=1, range_x2_extra=1, consumers=False)))
     # large value sets (index arithmetic beyond 8 bits) under every repr that can hold them, one scrambled order + ascending
     big_sets = [list(range(0, 300)), [x for x in range(0, 303) if x not in (100, 101, 200)]]
     if tier == "thorough":
@@ -291,7 +291,7 @@ def c18(tier):
                 d = EnumDecl(r, variants, tag={"family": "S-big", "n": len(vals)})
                 for cs, cfg in cfgs:
                     subs.append(Subj("w%04d_p%02d_%s_%s" % (bi, oi, r, cs), d, cfg, args=args, sweep_full=False, weight=80,
-                                     bounds=dict(x1_depth=1, x2_extra=0, x2_cap=2, range_x1_depth=1, range_x2_extra=0, range_pair_step=997)))
+                                     bounds=dict(x1_depth=1, x2_extra=0, x2_cap=2, range_x1_depth=1, range_x2_extra=0, range_pair_step=997, consumers=False)))
     merged = explore(res, "%s/c18" % tier, subs)
 
     def group(s):
@@ -384,6 +384,10 @@ def c16(tier):
         covers[k + ":extra"] = extra
     enums_ = [make_decl("i8", [4, 6, 3, 5], salt=2), make_decl("i8", [-5, 3, -10, -4], salt=5),
               make_decl("u8", [1, 2, 3], salt=1), make_decl("u16", [7, 300, 1, 8], salt=4)]
+    # pointer-sized reprs (seed C16-r6m2: a relative `core::` path in the usize/isize arm only) and many runs (seed C16-r6m1: a
+    # search over the run table, generated for > 8 runs only, that forgot to import Ok/Err)
+    enums_ += [make_decl("usize", [7, 3, 4, 100], salt=1), make_decl("isize", [-7, 3, 4, -100], salt=2),
+               make_decl("i8", [x for x in range(-30, 30) if x % 3 != 0][::-1], salt=4)]
     if tier == "thorough":
         enums_ += [make_decl("u64", [9, 1, 2], salt=3), make_decl("i64", [enums.I64_MIN, -1, 0, enums.I64_MAX], salt=7),
                    make_decl("u16", [0, 1, 2, 700, 701, 65535], salt=9), make_decl("usize", [7], salt=1)]
@@ -393,11 +397,15 @@ def c16(tier):
         dd.name = nm
         enums_.append(dd)
     scopes, singles = shadow_scopes(tier)
-    bounds = dict(x1_depth=1, x2_extra=1, x2_cap=5, range_x1_depth=1, range_x2_extra=0)
+    bounds = dict(x1_depth=1, x2_extra=1, x2_cap=5, range_x1_depth=1, range_x2_extra=0, consumers=False)
     subs = []
+    n_sibling = 0
     nostd_mods = []     # (sid, module text)
     nostd_cases = []
+    bounds_small = bounds
     for ei, d in enumerate(enums_):
+        # the iterator histories are C06-C08's subject; here every item only has to be exercised in every scope
+        bounds = bounds_small if len(d.variants) <= 16 else dict(x1_depth=1, x2_extra=0, x2_cap=2, range_x1_depth=1, range_x2_extra=0, range_pair_step=41, consumers=False)
         cfgs = [covers[klass(d) + ":extra"][int(t[4:])] if t.startswith("CFG:") else e1.cfg_from_text(t, zz=False) for t in covers[klass(d)]]
         seen_cfg = set()
         cfgs = [c for c in cfgs if not (c.key() in seen_cfg or seen_cfg.add(c.key()))]
@@ -412,9 +420,22 @@ def c16(tier):
                 sid = "e%d_c%03d_s%02d" % (ei, ci, si)
                 if nostd:
                     mod = "pub mod %s {\n%s\n}" % (sid, e3.module_m_source(d, cfg, inner_attrs=inner, scope_items=items))
-                    nostd_cases.append((sid, d, cfg, lab, mod))
+                    nostd_cases.append((sid, d, cfg, lab, mod, bounds))
                 else:
                     subs.append(Subj(sid, d, cfg, bounds=bounds, sweep_full=False, inner_attrs=inner, scope_items=items))
+            # sibling derives: two more enums with the same configuration in the same module (whatever the derive places next to the
+            # enum - structs, impls, a module-level `use` or const - must not collide with what it places next to another enum)
+            if not any(k in ("name", "struct_name") for _f, ps in cfg.feats for k in ps):
+                import copy
+                sibs = []
+                for k in (1, 2):
+                    sd = copy.deepcopy(d)
+                    sd.name = "Sib%d" % k
+                    if k == 2 and all(v.lit is not None for v in sd.variants):
+                        sd.variants.reverse()
+                    sibs.append(sd.render(cfg.attr_lines(), indent="    "))
+                n_sibling += 1
+                subs.append(Subj("e%d_c%03d_s%02d" % (ei, ci, len(scopes)), d, cfg, bounds=bounds, sweep_full=False, scope_items="\n".join(sibs)))
         full_cfgs = [catalogue.full_config(d.gapless, m) for m in
                      ({}, {"as_str": "table", "from_str": "table", "FromStr": "table", "iter": "table"},
                       {"as_str": "match", "from_str": "match", "FromStr": "match", "iter": "next_and_back"})]
@@ -436,8 +457,8 @@ def c16(tier):
                           {"rustc": v.to_json(), "module": c[4][:3000]}, {"repro.rs": "#![no_std]\n" + c[4] + "\n"})
     lib_src = "#![no_std]\n#![allow(warnings)]\n" + "\n".join(c[4] for c in good) + "\n"
     lib_toml = "[package]\nname = \"c16_nostd_%s\"\nversion = \"0.0.0\"\nedition = \"2021\"\n[lib]\npath = \"lib.rs\"\n[dependencies]\nenum-tools = { path = \"%s\" }\n" % (tier, REPO)
-    for (sid, d, cfg, lab, mod) in good:
-        subs.append(Subj(sid, d, cfg, bounds=bounds, sweep_full=False, m_external="::c16_nostd_%s::%s" % (tier, sid)))
+    for (sid, d, cfg, lab, mod, nb) in good:
+        subs.append(Subj(sid, d, cfg, bounds=nb, sweep_full=False, m_external="::c16_nostd_%s::%s" % (tier, sid)))
     merged = explore(res, "%s/c16" % tier, subs, extra_crates={"c16_nostd_%s" % tier: (lib_toml, lib_src)},
                      extra_deps="c16_nostd_%s = { path = \"../c16_nostd_%s\" }" % (tier, tier))
 
@@ -461,7 +482,7 @@ def c16(tier):
         v = e2.compile_one(src)
         obs[k] = "compiles" if v.ok else "does not compile: %s" % v.errors[:1]
     res.extra["observations_outside_property"] = obs
-    res.extra["scopes"] = [s[0] for s in scopes] + ["%d single-name shadows" % len(singles)]
+    res.extra["scopes"] = [s[0] for s in scopes] + ["%d single-name shadows" % len(singles), "std/sibling-derives (%d subjects)" % n_sibling]
     res.extra["cover_sizes"] = {k: len(v) for k, v in covers.items() if not k.endswith(":extra")}
     res.rule = ("states = (scope, configuration, enum) subjects' explorer states + no_std modules judged by rustc; every subject must compile and give the "
                 "same per-item transcripts as the same configuration in the plain scope; non-trivial as in C01-C08")
